@@ -85,6 +85,12 @@ def plan(seed, subbatch):
     life_candles = warm + cfg.randint(2, 30 if per_bucket == 1 else 10)
     fill_hex = kind == "hexital" and tf is not None and cfg.random() < 0.3
     lifespan_s = interval * life_candles
+    short_life = False
+    if kind == "hexital" and per_bucket > 1 and sub_rng(seed, "short-life").random() < 0.12:
+        short_life = True
+        # a Hexital lifespan SHORTER than a member's timeframe: that member's window is the newest bucket alone
+        # (no reading can be compared there; the retained window still has to be exact in every manager)
+        lifespan_s = base_s * sub_rng(seed, "short-life-k").randint(1, per_bucket - 1)
     if subbatch == "calm":
         # regular grid: the window slides once more candles than the lifespan holds have arrived
         n = (life_candles + cfg.choice((cfg.randint(-5, 5), cfg.randint(5, 40), cfg.randint(20, 120)))) * per_bucket
@@ -103,7 +109,9 @@ def plan(seed, subbatch):
     if env:
         start = env[1]     # the stream straddles an offset change of the zone the process runs in
     pre, ops, fired, rows = planlib.stream_and_schedule(seed, subbatch, n, base_s, start, faults, burst, 0.0,
-                                                        preload=cfg.choice((0, 0, 1, 5)))
+                                                        # (nothing may be trimmed at construction: a member manager
+                                                        # derived from trimmed base candles is the known C08 finding)
+                                                        preload=min(cfg.choice((0, 0, 1, 5)), 1 if short_life else 5))
     return {"format": 1, "property": ID, "seed": seed, "subbatch": subbatch,
             "config": {"process_tz": env[0] if env else None, "kind": kind, "members": members, "lifespan_s": lifespan_s, "base_s": base_s, "fill": fill_hex},
             "ops": [{"op": "new", "preload": pre}] + ops, "fired": dict(fired)}
